@@ -38,7 +38,9 @@ class FunctionInfo(object):
         self.calls_methods = []   # (receiver locations, method name, lineno)
 
 
-def load_package(root="/repo/pymeeus"):
+def load_package(root=None):
+    from .repo import REPO
+    root = root or os.path.join(REPO, "pymeeus")
     funcs = {}
     classes = {}
     module_globals = {}
